@@ -288,6 +288,9 @@ static void dec_tj(int kind, int a, int b, int cflags, int d, const unsigned cha
       int ps = tjPixelSize[pf], ssz = prec <= 8 ? 1 : 2, extra = (cflags & 16) ? 5 : 0;
       pitch = ow * ps + extra;
       nbytes = (size_t)pitch * oh * ssz;
+      /* above TJPARAM_MAXPIXELS the library must refuse before writing anything: give it a
+         tiny buffer (a write would be an ASan report) instead of gigabytes */
+      if ((unsigned long long)w * h > MAXPIXELS) nbytes = 64;
       dst = (unsigned char *)malloc(nbytes ? nbytes : 1);
       memset(dst, run ? 0xA5 : 0x5A, nbytes);
       if (prec <= 8) rc = tj3Decompress8(tj, buf, len, dst, pitch, pf);
@@ -297,7 +300,8 @@ static void dec_tj(int kind, int a, int b, int cflags, int d, const unsigned cha
       if (rc) thr = strstr(tj3GetErrorStr(tj), "(): ") != NULL;
       { /* hash the documented extent only: ow*ps samples of each row */
         unsigned long hh = 1469598103934665603UL; int y;
-        for (y = 0; y < oh; y++) hh = hh * 31 + fnv(dst + (size_t)y * pitch * ssz, (size_t)ow * ps * ssz);
+        if ((unsigned long long)w * h > MAXPIXELS) hh = fnv(dst, nbytes);
+        else for (y = 0; y < oh; y++) hh = hh * 31 + fnv(dst + (size_t)y * pitch * ssz, (size_t)ow * ps * ssz);
         hs[run] = hh;
         if (run == 1) { size_t q; untouched = 1; for (q = 0; q < nbytes; q++) if (dst[q] != 0xA5) { untouched = 0; break; } }
       }
@@ -305,7 +309,9 @@ static void dec_tj(int kind, int a, int b, int cflags, int d, const unsigned cha
     } else {
       int align = 1 << (a % 4);
       size_t ysz = ss >= 0 ? tj3YUVBufSize(ow, align, oh, ss) : 0;
+      int toobig = (unsigned long long)w * h > MAXPIXELS;
       if (ysz == 0) { rcs[run] = -3; tj3Destroy(tj); continue; }
+      if (toobig) ysz = 64;
       dst = (unsigned char *)malloc(ysz);
       memset(dst, run ? 0xA5 : 0x5A, ysz);
       rc = tj3DecompressToYUV8(tj, buf, len, dst, align);
@@ -313,6 +319,7 @@ static void dec_tj(int kind, int a, int b, int cflags, int d, const unsigned cha
       if (rc) thr = strstr(tj3GetErrorStr(tj), "(): ") != NULL;
       { /* row padding of the planes is not "produced output": hash the plane extents only */
         unsigned long hh = 7; int pl, np = ss == TJSAMP_GRAY ? 1 : 3; size_t off = 0;
+        if (toobig) { hh = fnv(dst, ysz); np = 0; }
         for (pl = 0; pl < np; pl++) {
           int pw = tj3YUVPlaneWidth(pl, ow, ss), phh = tj3YUVPlaneHeight(pl, oh, ss), y;
           int stride = (pw + align - 1) & ~(align - 1);
